@@ -98,6 +98,18 @@ CHECKS = {
         "note": "labels compared within (8+2d) ulp; sample-rate perturbations >= 1e-3 relative (documented isclose tolerance of the code)",
         "technique": "property-based testing: split/concatenate round trip, associativity, and refusal of generated perturbations",
     },
+    "C11": {
+        "text": "Rule-based state machine per reader over the four sample files and files written by the check with baseband (VDIF real/complex, 1-4 threads; "
+                "DADA complex; multi-file GUPPI with OBSBW of either sign, LIN/CIRC; DADA Stokes with BW of either sign) and reader options (lower_sideband "
+                "bool/array, squeeze, signal type, intensity): read and dask_read at frame/file boundaries, n = 0, offset_at(time_at(k)) absolute and "
+                "relative, out-of-range requests, adjacent vs spanning reads, repeated reads, and 2-4 threads under a DRAWN interleaving of their "
+                "seek/read events (proxy file handles owned by the harness); every result compared with a direct baseband read mapped by the documented "
+                "transformation, GUPPI channels matched to labels by header frequency. Plus a 12-thread soak and joint Dask reads of two readers. Exploration.",
+        "ref": "DESIGN.md section 4 C11",
+        "note": "concurrency is decided under harness-chosen interleavings of file-handle events plus a free-running soak, not under OS timing; warnings are "
+                "silenced while threads run (Python's warnings filters are not thread-safe)",
+        "technique": "property-based testing: Hypothesis RuleBasedStateMachine with a reference model of the file; schedule-owning proxy for interleavings",
+    },
     "C12": {
         "text": "Generated signals of every class (N 1..128, f4/f8/c8/c16, with/without start time, rates mHz..GHz in every unit) and snippet requests in "
                 "each documented form (sample count int/float, duration in s..min, k*dt, absolute Time), whole and fractional, n 0..N incl. requests "
